@@ -91,7 +91,9 @@ package dag
 // Writing a pack stores objects only (no ref is touched); the new commit has the given parents.
 //@ func (*operationPack).Write
 //@   trusted
-//@   modifies opp.id
+//@   modifies opp.id, repository.mutSeq
+//@   ensures [objects-stored] result1 == nil ==> repository.mutSeq > old(repository.mutSeq)
+//@   ensures [counted] repository.mutSeq >= old(repository.mutSeq)
 //@   ensures [parents] result1 == nil ==> (forall k int :: { parentCommit[k] } 0 <= k && k < len(parentCommit) ==> repository.anc(parentCommit[k], result))
 
 // merge (C02): the five scenarios, decided on the ghost ref store and the ancestry relation.
@@ -184,3 +186,31 @@ package dag
 //@   modifies * except sync.mheld, sync.rwheld, all(cache.withSnapshot.snap)
 //@ func Snapshot.AppendOperation
 //@   modifies * except applyCount, applied, appliedOn, sync.mheld, sync.rwheld, all(cache.withSnapshot.snap)
+
+// Commit (C06, C05): everything is written as objects first - each pack stamped with an edit time that was
+// taken from the repository clock before the pack was written - and the entity's ref is moved in one step at
+// the very end: no ref is touched when Commit fails, exactly one is set when it succeeds, and nothing is
+// written after it. Whatever instant the process dies at, the ref names the old head or the new one.
+//@ func (*Entity).NeedCommit
+//@   props C06
+//@   modifies nothing
+//@   ensures result == (len(e.staging) > 0)
+//@ func (*Entity).Validate
+//@   trusted
+//@   modifies nothing
+// the author of an operation is a fixed attribute of it
+//@ func Operation.Author
+//@   purefn
+//@ func (*Entity).Commit
+//@   props C06 C05
+//@   requires e != nil && repo != nil
+//@   let refs0 = old(repository.refs)
+//@   ensures [failure-touches-no-ref] result != nil ==> repository.refs == refs0
+//@   ensures [one-ref-set]            result == nil ==> (exists r string :: repository.refs == update(refs0, r, e.lastCommit))
+//@   ensures [ref-update-is-last]     result == nil ==> repository.refMutSeq == repository.mutSeq && repository.mutSeq > old(repository.mutSeq)
+//@   ensures [clock-before-stamp]     result == nil ==> repository.clockSeen[e.Namespace + "-edit"] >= e.editTime
+//@   loop 1
+//@     invariant repository.refs == refs0 && repository.mutSeq >= old(repository.mutSeq)
+//@     invariant len(e.staging) == len(old(e.staging)) || repository.clockSeen[e.Namespace + "-edit"] >= e.editTime
+//@   loop 2
+//@     invariant repository.refs == refs0 && repository.mutSeq >= old(repository.mutSeq)
